@@ -42,3 +42,12 @@ func (c *FnCtx) storeNestedValue(st *State, root Term, rootExpr ast.Expr, path [
 	}
 	c.assignTo(st, rootExpr, cur, pos)
 }
+
+// checkLoopExit: `loop N exit EXPR` clauses are obligations on every state in which loop N is left (its guard is
+// false, or a break leaves it).
+func (c *FnCtx) checkLoopExit(st *State, ord int, pos token.Pos) {
+	if c.fc == nil || len(c.fc.LoopExit[ord]) == 0 {
+		return
+	}
+	c.checkInvariant(st, c.fc.LoopExit[ord], ord, "exit", pos, nil)
+}
